@@ -21,11 +21,12 @@ type Opts struct {
 	HeredocBodyPool int  // 0: all bodies; 1: only plain bodies
 	HDBias          bool // prefer here-documents at redirection sites and add redirections more often
 	HDMultiLine     bool // here-document bodies may contain expansions that span lines ($(( )) and $( ) with newlines)
+	NLInSubst       bool // newlines inside $( ) although a here-document of the enclosing line is still pending
 }
 
 func FullOpts() Opts {
 	return Opts{MaxDepth: 4, Heredocs: true, CmdSubst: true, Comments: true, InnerComments: true, MultiLine: true,
-		Continuation: true, QuotedNL: true, ArithCmd: true, FuncDef: true, MultiByte: true}
+		Continuation: true, QuotedNL: true, ArithCmd: true, FuncDef: true, MultiByte: true, NLInSubst: true}
 }
 
 // HD is a here-document the generator wrote, in source order of the operators.
@@ -58,6 +59,7 @@ type G struct {
 	depth       int
 	inBackquote bool
 	inCmdSubst  int
+	inSubshell  int
 	noNewline   int // >0: newlines are not allowed here (would mis-place a pending here-doc)
 	names       int
 }
@@ -121,10 +123,13 @@ func (g *G) canNewline() bool {
 	if g.noNewline > 0 {
 		return false
 	}
-	// inside a command substitution a newline is only allowed when no enclosing level has pending here-docs
-	for i := 0; i < len(g.pend)-1; i++ {
-		if len(g.pend[i]) != 0 {
-			return false
+	// inside a command substitution: the bodies of the enclosing line's here-documents come after that line's
+	// own newline (a substitution is scanned as a unit); allowed only where the option says so
+	if !g.O.NLInSubst {
+		for i := 0; i < len(g.pend)-1; i++ {
+			if len(g.pend[i]) != 0 {
+				return false
+			}
 		}
 	}
 	return true
@@ -201,6 +206,9 @@ func (g *G) word(arg bool) {
 	}
 	for i := 0; i < parts; i++ {
 		g.wordPart(arg && parts == 1, i == 0)
+	}
+	if g.S.Chance(1, 16) {
+		g.b.WriteString("$") // a lone dollar sign at the very end of a word is an ordinary character
 	}
 }
 
@@ -295,6 +303,9 @@ func (g *G) dquote() {
 				g.arithExp()
 			}
 		}
+	}
+	if g.S.Chance(1, 12) {
+		g.b.WriteString("$") // a dollar sign right before the closing quote
 	}
 	g.b.WriteString("\"")
 }
@@ -443,7 +454,7 @@ func (g *G) heredoc() {
 	delim := g.S.Pick(hdDelims)
 	quoted := false
 	var written string
-	switch g.S.Intn(8) {
+	switch g.S.Intn(9) {
 	case 0, 1, 2:
 		written = delim
 	case 3:
@@ -458,6 +469,9 @@ func (g *G) heredoc() {
 		} else {
 			written, quoted = "'"+delim+"'", true
 		}
+	case 8:
+		// empty quotes are quoting too
+		written, quoted = g.S.Pick([]string{"\"\"" + delim, delim + "\"\"", delim + "''", delim[:1] + "\"\"" + delim[1:]}), true
 	case 7:
 		// an expansion in the delimiter word is taken literally: the delimiter is the text "E$x"
 		delim += g.S.Pick([]string{"$x", "${y}", "$1"})
@@ -486,7 +500,7 @@ func (g *G) hdBody(op, delim string, quoted bool) string {
 			pool = 26
 		}
 		if g.S.Chance(1, 12) {
-			pool = 29 // includes the rare lines 26, 27, 28 (and, for C18/C01 only, 24/25 when allowed)
+			pool = 30 // includes the rare lines 26..29 (and, for C18/C01 only, 24/25 when allowed)
 		}
 		if g.O.HeredocBodyPool == 1 {
 			pool = 4
@@ -548,6 +562,8 @@ func (g *G) hdBody(op, delim string, quoted bool) string {
 			} else {
 				line = "$x " + delim
 			}
+		case 29:
+			line = "costs 5$" // a dollar sign at the end of a line
 		case 28:
 			line = "esc \\é \\日 \\x end" // a backslash before multi-byte characters stays as it is
 		case 26:
@@ -649,6 +665,8 @@ func (g *G) command() {
 	k := g.S.Intn(10)
 	switch k {
 	case 0: // subshell
+		g.inSubshell++
+		defer func() { g.inSubshell-- }()
 		g.b.WriteString("(")
 		g.optBlank()
 		if g.S.Chance(1, 8) {
@@ -759,6 +777,15 @@ func (g *G) command() {
 			hasList := g.S.Chance(3, 4)
 			if hasList {
 				g.sepAfterOpen()
+				if g.O.ArithCmd && g.S.Chance(1, 6) {
+					// an arithmetic command inside a case item (the unmatched ')' of the pattern precedes it)
+					if g.inCmdSubst == 0 && !g.inBackquote && g.inSubshell == 0 && !strings.Contains(g.b.String(), "(") {
+						g.b.WriteString(g.S.Pick([]string{"((x++))", "(( n <<= 1 ))", "((1))"}))
+					} else {
+						g.b.WriteString("((x++))")
+					}
+					g.b.WriteString(g.S.Pick([]string{"; ", " && ", " || "}))
+				}
 				g.list(g.S.Range(1, 2), false)
 			}
 			last := i == n-1
@@ -802,6 +829,11 @@ func (g *G) command() {
 		if g.O.ArithCmd {
 			g.b.WriteString("((")
 			apool := []string{" x + 1 ", "x=1", " x = y * 2 ", "x++", "1"}
+			if g.inCmdSubst == 0 && !g.inBackquote && g.inSubshell == 0 && !strings.Contains(g.b.String(), "(") {
+				// go.sh does not recognise "((" inside a command substitution or a subshell (and its parenthesis counter is upset by a case inside a subshell; grammar deviations, C02): there the
+				// text is lexed as nested subshells, so operators that look like redirections or comments stay out
+				apool = append(apool, " n <<= 1 ", " x < y ", " a >> 2 ", " n = 16#ff ", "1<<2")
+			}
 			if g.O.MultiByte {
 				apool = append(apool, " é + 1 ", "\"é\" + x")
 			}
